@@ -241,15 +241,20 @@ def get_distance_lattice(S):
         S.static_vc("bounded:getDistance-lattice", "hypnotoad.core.equilibrium:FineContour.getDistance", "arc length of a point: exact at fine-contour nodes, chord-linear in between", False, detail=repr(bad[:2]), kind="bounded-native", model=bad[0])
 
 
+def add_hy(S):
+    S.under_contract(FN_HY)
+    for lo in (False, True):
+        for up in (False, True):
+            S.contract("calcHy[lower=%s,upper=%s]" % (lo, up), FN_HY, make_hy_run(lo, up), expected_exceptions=(ValueError,), shape="nx=1, ny=2, distances strictly increasing (get_distance's guarantee): never raises", max_paths=3000)
+    S.contract("calcHy[guard]", FN_HY, make_hy_run(False, False, increasing=False), expected_exceptions=(ValueError,), raises_ok=hy_raise_ok, shape="nx=1, ny=2, arbitrary distances: hy>0 or ValueError", max_paths=3000)
+
+
 def build(S):
     S.under_contract(FN_HY, FN_PD, "hypnotoad.core.equilibrium:PsiContour.get_distance")
     S.assume("A-SHAPE: calcHy proved at nx=1, ny=2 for the four combinations of lower/upper neighbour; all distance values symbolic")
     S.assume("NOT proved (bounded only): FineContour.equaliseSpacing convergence, accuracy of the chord-length sum as arc length, quadratic convergence in finecontour_Nfine; calcPoloidalDistance hand-over is checked on generated grids (continuity, monotonicity, zero at the chain start)")
     with numpy_shimmed():
-        for lo in (False, True):
-            for up in (False, True):
-                S.contract("calcHy[lower=%s,upper=%s]" % (lo, up), FN_HY, make_hy_run(lo, up), expected_exceptions=(ValueError,), shape="nx=1, ny=2, distances strictly increasing (get_distance's guarantee): never raises", max_paths=3000)
-        S.contract("calcHy[guard]", FN_HY, make_hy_run(False, False, increasing=False), expected_exceptions=(ValueError,), raises_ok=hy_raise_ok, shape="nx=1, ny=2, arbitrary distances: hy>0 or ValueError", max_paths=3000)
+        add_hy(S)
         from . import chainkit
 
         for per, st in ((False, 0), (True, 0), (False, 2)):
@@ -264,7 +269,7 @@ def post(S):
     from bounded import gridrun
     from . import C05_bounded
 
-    gridrun.run(S, ["hy_vs_poloidal_distance", "poloidal_distance_monotone", "arc_vs_chord"], FN_HY, name="hy / poloidal_distance consistency on generated grids")
+    gridrun.run(S, ["hy_vs_poloidal_distance", "hy_ylow_vs_displacements", "poloidal_distance_monotone", "arc_vs_chord"], FN_HY, name="hy / poloidal_distance consistency on generated grids")
     C05_bounded.run(S)
     S.under_contract(FN_CFE)
     check_extend_lattice(S)
